@@ -1125,6 +1125,117 @@ func init() {
 		}
 		st.End()
 
+		// ---- the same file under two names ----
+		st = c.R.StartStage("alias", "source and destination are the same file under different names (hard link, symlink in either direction, symlinked parent directory, differently spelled path): the destination must hold exactly the library output for the ORIGINAL bytes (the original on a minifier error), every other name keeps its bytes, no *.bak is left; Go oracle only (outside the lexical model); non-trivial = always")
+		{
+			type aliasCase struct {
+				name string
+				tree cliTree
+				prep func(dir string) error
+				args []string
+				src  string // the name whose original bytes are minified
+				want func(orig, out []byte) cliTree
+			}
+			reps := c.N(3, 25)
+			var acs []aliasCase
+			for rep := 0; rep < reps; rep++ {
+				for _, ext := range []string{"css", "js", "json", "html"} {
+					rng := c.Rng.Fork()
+					body := c20Content(rng, ext, 30+rng.Intn(3000))
+					if ext == "js" && rep%3 == 2 {
+						body = []byte("var = ;\n") // minifier error: the destination must get the original bytes
+					}
+					a, b := "a."+ext, "b."+ext
+					acs = append(acs,
+						aliasCase{"hardlink: -o b a (b is a hard link of a)", cliTree{a: body},
+							func(d string) error { return os.Link(filepath.Join(d, a), filepath.Join(d, b)) },
+							[]string{"-q", "-o", b, a}, a,
+							func(o, out []byte) cliTree { return cliTree{a: o, b: out} }},
+						aliasCase{"hardlink-reverse: -o a b (b is a hard link of a)", cliTree{a: body},
+							func(d string) error { return os.Link(filepath.Join(d, a), filepath.Join(d, b)) },
+							[]string{"-q", "-o", a, b}, a,
+							func(o, out []byte) cliTree { return cliTree{a: out, b: o} }},
+						aliasCase{"symlink-source: -o real link (link -> real)", cliTree{a: body},
+							func(d string) error { return os.Symlink(a, filepath.Join(d, b)) },
+							[]string{"-q", "-o", a, b}, a,
+							func(o, out []byte) cliTree { return cliTree{a: out, b: out} }},
+						aliasCase{"symlink-destination: -o link real (link -> real)", cliTree{a: body},
+							func(d string) error { return os.Symlink(a, filepath.Join(d, b)) },
+							[]string{"-q", "-o", b, a}, a,
+							func(o, out []byte) cliTree { return cliTree{a: o, b: out} }},
+						aliasCase{"symlinked-parent: -o e/a d/a (e -> d)", cliTree{"d/" + a: body},
+							func(d string) error { return os.Symlink("d", filepath.Join(d, "e")) },
+							[]string{"-q", "-o", "e/" + a, "d/" + a}, "d/" + a,
+							func(o, out []byte) cliTree { return cliTree{"d/" + a: out} }},
+						aliasCase{"symlinked-parent-reverse: -o d/a e/a (e -> d)", cliTree{"d/" + a: body},
+							func(d string) error { return os.Symlink("d", filepath.Join(d, "e")) },
+							[]string{"-q", "-o", "d/" + a, "e/" + a}, "d/" + a,
+							func(o, out []byte) cliTree { return cliTree{"d/" + a: out} }},
+						aliasCase{"absolute-destination: -o $PWD/a a", cliTree{a: body}, nil,
+							[]string{"-q", "-o", "$PWD/" + a, a}, a,
+							func(o, out []byte) cliTree { return cliTree{a: out} }},
+						aliasCase{"dotdot-destination: -o ../w/a a", cliTree{a: body}, nil,
+							[]string{"-q", "-o", "../w/" + a, a}, a,
+							func(o, out []byte) cliTree { return cliTree{a: out} }},
+						aliasCase{"bundle-onto-hardlink: -b -o b a c (b is a hard link of a)", cliTree{a: body, "c." + ext: c20Content(rng, ext, 60)},
+							func(d string) error { return os.Link(filepath.Join(d, a), filepath.Join(d, b)) },
+							[]string{"-q", "-b", "-o", b, a, "c." + ext}, "",
+							nil},
+					)
+				}
+			}
+			aliasSeen := map[string]int{}
+			runs := make([]*cliRun, len(acs))
+			errs := make([]error, len(acs))
+			parallelDo(len(acs), 8, func(i int) {
+				runs[i], errs[i] = runCLI(bin, acs[i].tree, nil, acs[i].prep, acs[i].args, nil, nil, false)
+			})
+			for i, ac := range acs {
+				if errs[i] != nil {
+					return errs[i]
+				}
+				run := runs[i]
+				key := ac.name + ": minify " + strings.Join(ac.args, " ") + "   in tree {" + treeStr(ac.tree) + "}"
+				st.Count(key, true)
+				st.Tag("alias=" + strings.SplitN(ac.name, ":", 2)[0])
+				var want cliTree
+				okLib := true
+				if ac.want != nil {
+					orig := ac.tree[ac.src]
+					out, ok := cliLib(cliMime(ac.src), orig)
+					okLib = ok
+					want = ac.want(orig, out)
+				} else {
+					// bundle a + c onto b (= a): b holds lib(a ; c), a keeps its bytes, c unchanged
+					var names []string
+					for p := range ac.tree {
+						names = append(names, p)
+					}
+					sort.Strings(names)
+					ext := filepath.Ext(names[0])
+					sep := ""
+					if cliMime(names[0]) == "application/javascript" {
+						sep = ";\n"
+					}
+					in := append(append(append([]byte{}, ac.tree["a"+ext]...), sep...), ac.tree["c"+ext]...)
+					out, ok := cliLib(cliMime(names[0]), in)
+					okLib = ok
+					want = cliTree{"a" + ext: ac.tree["a"+ext], "b" + ext: out, "c" + ext: ac.tree["c"+ext]}
+				}
+				wantExit := 0
+				if !okLib {
+					wantExit = 1
+				}
+				kind := strings.SplitN(ac.name, ":", 2)[0]
+				if ok, why := treeEq(want, run.Tree); (!ok || run.Exit != wantExit) && aliasSeen[kind] < 2 {
+					aliasSeen[kind]++
+					c.R.Add(h.Finding{Stage: st.Name, Kind: "fail", What: "same file under two names: " + strings.SplitN(ac.name, ":", 2)[0] + ": " + why, Input: key,
+						Impl: fmt.Sprintf("exit %d, tree after: %s", run.Exit, treeStr(run.Tree)), Model: fmt.Sprintf("expected exit %d, tree: %s", wantExit, treeStr(want))})
+				}
+			}
+		}
+		st.End()
+
 		// ---- regression corpus: the commands of the fixed findings (K-C20-1/2, K-C19-1..4, write-error exit status) ----
 		st = c.R.StartStage("regress", "the formerly failing commands of the fixed findings must give the corrected result (exit status and tree); non-trivial = always")
 		for _, g := range c19Regress {
